@@ -230,8 +230,8 @@ def check_stdlib(ctx, tname, args):
             d = v.to_datetime()
             exp = dt.datetime(*args[:6], args[6] // 1000, tzinfo=None if args[7] is None else dt.timezone(dt.timedelta(minutes=args[7])))
             back = T.from_datetime(d)
-            ok = d == exp and d.utcoffset() == exp.utcoffset() and tuple(back) == tuple(v)
-            if args[7] is not None:
+            ok = d == exp and d.utcoffset() == exp.utcoffset() and tuple(back) == tuple(v._replace(fractional_second=args[6] // 1000 * 1000))
+            if args[7] is not None and args[6] % 1000 == 0:
                 epoch = dt.datetime(1970, 1, 1, tzinfo=dt.timezone.utc)
                 delta = d - epoch
                 ns = (delta.days * 86400 + delta.seconds) * lx.NS + delta.microseconds * 1000
@@ -240,7 +240,7 @@ def check_stdlib(ctx, tname, args):
             d = v.to_time()
             exp = dt.time(*args[:3], args[3] // 1000, tzinfo=None if args[4] is None else dt.timezone(dt.timedelta(minutes=args[4])))
             back = T.from_time(d)
-            ok = d == exp and d.utcoffset() == exp.utcoffset() and tuple(back) == tuple(v)
+            ok = d == exp and d.utcoffset() == exp.utcoffset() and tuple(back) == tuple(v._replace(fractional_second=args[3] // 1000 * 1000))
         else:
             d = v.to_date()
             exp = dt.date(*args[:3])
@@ -491,7 +491,9 @@ def run_shard(ctx):
             check_order(ctx, "XmlTime", ta, tb)
         # stdlib conversions
         if k % 4 == 0 and 1 <= y <= 9999:
-            us = ns // 1000 * 1000
+            # stdlib objects carry microseconds: finer fractions are cut off (the documented `microsecond` of the value),
+            # never rounded up into the next microsecond / second
+            us = rng.choice([ns // 1000 * 1000, ns, ns, 999999500 + rng.randrange(500), rng.randrange(1000) + rng.choice([500, 999])])
             so = off
             check_stdlib(ctx, "XmlDateTime", [y, mo, d, h, mi, s, us, so])
             check_stdlib(ctx, "XmlTime", [h, mi, s, us, so])
